@@ -13,7 +13,16 @@ Record obs := { ob_reg : list (name * domain) ; ob_bal : list Z ; ob_pool : Z }.
 
 Inductive cstep :=
 | STx (o : op) (h v : Z) (fee : option Z) (sok nb : bool) (ok : bool) (ob : obs)
-| SEnd (ob : obs).
+| SEnd (ob : obs)
+(* the ONS options PERSISTED in the deliver state's governance store changed (a finalised
+   config-update proposal): every later transaction is priced with them *)
+| SOpts (perblock base : Z)
+(* a transaction outside the ONS (governance proposal / fund / vote, or a CheckTx): must leave
+   the registry and the actors' balances alone; the fee pool is re-read *)
+| SAux (ob : obs).
+
+Definition with_prices (o : opts) (pb base : Z) : opts :=
+  {| o_perblock := pb; o_base := base; o_tlds := o_tlds o |}.
 
 Record case := { c_opts : opts ; c_init : obs ; c_steps : list cstep }.
 
@@ -66,6 +75,10 @@ Fixpoint mm_steps (o : opts) (s : state) (i : nat) (steps : list cstep) : option
       let s' := end_block s in
       (* the pool is re-read at block end (block-level bookkeeping is outside this model) *)
       let s'' := {| reg := reg s'; snap := snap s'; bal := bal s'; pool := ob_pool ob |} in
+      if state_matches s'' ob then mm_steps o s'' (S i) rest else Some i
+  | SOpts pb base :: rest => mm_steps (with_prices o pb base) s (S i) rest
+  | SAux ob :: rest =>
+      let s'' := {| reg := reg s; snap := snap s; bal := bal s; pool := ob_pool ob |} in
       if state_matches s'' ob then mm_steps o s'' (S i) rest else Some i
   end.
 
@@ -228,7 +241,8 @@ Definition listed_after (listed : list (name * addr)) (op0 : op) (ok : bool) : l
 Definition monitor_step (o : opts) (committed : list name) (listed : list (name * addr)) (b : obs)
     (st : cstep) : nat :=
   match st with
-  | SEnd a =>
+  | SOpts _ _ => 0%nat
+  | SEnd a | SAux a =>
       if negb (names_nodup a) then 6%nat
       else if negb (bool_decide (obs_reg b = obs_reg a)) || negb (bool_decide (ob_bal b = ob_bal a)) then 5%nat
       else 0%nat
@@ -256,18 +270,21 @@ Definition monitor_step (o : opts) (committed : list name) (listed : list (name 
         else 0%nat
   end.
 
-Definition step_obs (st : cstep) : obs := match st with STx _ _ _ _ _ _ _ a => a | SEnd a => a end.
+Definition step_obs (b : obs) (st : cstep) : obs :=
+  match st with STx _ _ _ _ _ _ _ a => a | SEnd a | SAux a => a | SOpts _ _ => b end.
+Definition step_opts (o : opts) (st : cstep) : opts :=
+  match st with SOpts pb base => with_prices o pb base | _ => o end.
 
 Fixpoint mon_steps (o : opts) (committed : list name) (listed : list (name * addr)) (b : obs) (i : nat)
     (steps : list cstep) : list (nat * nat) :=
   match steps with
   | [] => []
   | st :: rest =>
-      let a := step_obs st in
+      let a := step_obs b st in
       let committed' := match st with SEnd _ => obs_names a | _ => committed end in
       let cl := monitor_step o committed listed b st in
-      let listed' := match st with STx op0 _ _ _ _ _ ok _ => listed_after listed op0 ok | SEnd _ => listed end in
-      (if (cl =? 0)%nat then [] else [(i, cl)]) ++ mon_steps o committed' listed' a (S i) rest
+      let listed' := match st with STx op0 _ _ _ _ _ ok _ => listed_after listed op0 ok | _ => listed end in
+      (if (cl =? 0)%nat then [] else [(i, cl)]) ++ mon_steps (step_opts o st) committed' listed' a (S i) rest
   end.
 
 Fixpoint monitor_violations (i : nat) (cs : list case) : list (nat * nat * nat) :=
@@ -284,12 +301,12 @@ Fixpoint stat_steps (b : obs) (steps : list cstep) : Z * Z * Z :=
   match steps with
   | [] => (0, 0, 0)
   | st :: rest =>
-      let a := step_obs st in
+      let a := step_obs b st in
       let '(x, y, z) := stat_steps a rest in
       match st with
       | STx _ _ _ _ _ _ ok _ =>
           (x + 1, (if ok then y + 1 else y), (if (0 <? length (changed_names b a))%nat then z + 1 else z))
-      | SEnd _ => (x, y, z)
+      | _ => (x, y, z)
       end
   end.
 Definition stats (cs : list case) : list Z :=
